@@ -142,7 +142,10 @@ pub trait RawGroup {
     fn poll(&mut self, cx: &mut Context<'_>) -> Poll<Option<(Option<Self::Key>, Val)>>;
     fn insert(&mut self, c: Self::Child) -> Self::Key;
     /// false when the type has no Extend impl
-    fn extend(&mut self, v: Vec<Self::Child>) -> bool;
+    /// `wake`: leaves whose current waker the iterator invokes while the group
+    /// consumes it (an iterator is user code: it may well complete an earlier
+    /// member's work and thereby wake it)
+    fn extend(&mut self, v: Vec<Self::Child>, wake: Vec<NodeId>) -> bool;
     fn remove(&mut self, k: Self::Key) -> bool;
     fn contains(&mut self, k: Self::Key) -> bool;
     fn len(&self) -> usize;
@@ -200,9 +203,18 @@ impl RawGroup for FPlain {
     fn poll(&mut self, cx: &mut Context<'_>) -> Poll<Option<(Option<fg::Key>, Val)>> {
         Pin::new(&mut self.0).poll_next(cx).map(|o| o.map(|v| (None, v)))
     }
-    fn extend(&mut self, v: Vec<FNode>) -> bool {
+    fn extend(&mut self, v: Vec<FNode>, mut wake: Vec<NodeId>) -> bool {
         // sometimes from an iterator without an upper size hint (from_fn),
         // sometimes from the Vec itself (exact hint)
+        if !wake.is_empty() {
+            self.0.extend(v.into_iter().map(move |x| {
+                if let Some(t) = wake.pop() {
+                    world::fire(t, 0, false);
+                }
+                x
+            }));
+            return true;
+        }
         match v.len() % 3 {
             1 => {
                 let mut it = v.into_iter();
@@ -224,9 +236,18 @@ impl RawGroup for FKeyed {
     fn poll(&mut self, cx: &mut Context<'_>) -> Poll<Option<(Option<fg::Key>, Val)>> {
         Pin::new(&mut self.0).poll_next(cx).map(|o| o.map(|(k, v)| (Some(k), v)))
     }
-    fn extend(&mut self, v: Vec<FNode>) -> bool {
+    fn extend(&mut self, v: Vec<FNode>, mut wake: Vec<NodeId>) -> bool {
         // through DerefMut to the group
         use std::ops::DerefMut;
+        if !wake.is_empty() {
+            self.0.deref_mut().extend(v.into_iter().map(move |x| {
+                if let Some(t) = wake.pop() {
+                    world::fire(t, 0, false);
+                }
+                x
+            }));
+            return true;
+        }
         match v.len() % 3 {
             1 => {
                 let mut it = v.into_iter();
@@ -248,7 +269,7 @@ impl RawGroup for SPlain {
     fn poll(&mut self, cx: &mut Context<'_>) -> Poll<Option<(Option<sg::Key>, Val)>> {
         Pin::new(&mut self.0).poll_next(cx).map(|o| o.map(|v| (None, v)))
     }
-    fn extend(&mut self, _v: Vec<SNode>) -> bool {
+    fn extend(&mut self, _v: Vec<SNode>, _wake: Vec<NodeId>) -> bool {
         false
     }
     raw_common!();
@@ -262,7 +283,7 @@ impl RawGroup for SKeyed {
     fn poll(&mut self, cx: &mut Context<'_>) -> Poll<Option<(Option<sg::Key>, Val)>> {
         Pin::new(&mut self.0).poll_next(cx).map(|o| o.map(|(k, v)| (Some(k), v)))
     }
-    fn extend(&mut self, _v: Vec<SNode>) -> bool {
+    fn extend(&mut self, _v: Vec<SNode>, _wake: Vec<NodeId>) -> bool {
         false
     }
     raw_common!();
@@ -279,6 +300,7 @@ pub struct Runner<G: RawGroup> {
     stats: GroupStats,
     polled_once: bool,
     last_none: bool,
+    extends: u32,
 }
 
 fn viol(fam: Family, msg: String) {
@@ -377,7 +399,27 @@ impl<G: RawGroup> Runner<G> {
         }
         let cap_before = self.g.capacity();
         let pending_before = self.any_member_pending();
-        if !self.g.extend(kids) {
+        // every fourth extend: the iterator wakes members that are parked
+        self.extends += 1;
+        let wake: Vec<NodeId> = if self.extends % 4 == 2 {
+            world::with(|w| {
+                w.leaves
+                    .iter()
+                    .cloned()
+                    .filter(|&l| {
+                        let n = &w.nodes[l];
+                        matches!(n.last_answer(), Some(a) if a.is_pend()) && !n.wakers.is_empty() && w.live(l)
+                    })
+                    .take(kids.len().max(1))
+                    .collect()
+            })
+        } else {
+            Vec::new()
+        };
+        if !wake.is_empty() {
+            note(format!(" (the iterator given to extend invokes the current wakers of {} parked leaves)", wake.len()));
+        }
+        if !self.g.extend(kids, wake) {
             // type has no Extend: fall back to inserts (children were built
             // already and are gone now; rebuild is not possible) - unreachable,
             // the generator only emits Extend for FutureGroup
@@ -695,6 +737,7 @@ fn runner<G: RawGroup + 'static>(g: G, fam: Family, top: NodeId, init_ids: Vec<N
         stats: GroupStats::default(),
         polled_once: false,
         last_none: false,
+        extends: 0,
     };
     // members given to from_iter: their keys are not observable
     for id in init_ids {
